@@ -680,6 +680,148 @@ theorem sorted_palette_lossless (i j : Img) (palette : List Rgba) (hc : i.ihdr.c
               rw [getD_of_getElem? _ _ _ _ this]
   · simp [hd] at h
 
+/-! ### fewer than 8 bits per sample -/
+
+theorem expandByte_spec_aux : ∀ depth ∈ [1, 2, 4], ∀ n < 256,
+    expandByte depth false (UInt8.ofNat n) = (subSamples depth (UInt8.ofNat n)).map (fun v => UInt8.ofNat v) ∧
+    expandByte depth true (UInt8.ofNat n) = (subSamples depth (UInt8.ofNat n)).map (fun v => UInt8.ofNat (replicateBits v depth)) := by
+  decide +kernel
+
+theorem expandByte_spec (depth : Nat) (hd : depth ∈ [1, 2, 4]) (b : UInt8) :
+    expandByte depth false b = (subSamples depth b).map (fun v => UInt8.ofNat v) ∧
+    expandByte depth true b = (subSamples depth b).map (fun v => UInt8.ofNat (replicateBits v depth)) := by
+  have := expandByte_spec_aux depth hd b.toNat b.toNat_lt
+  rwa [UInt8.ofNat_toNat] at this
+
+theorem subSamples_lt (depth : Nat) (b : UInt8) : ∀ v ∈ subSamples depth b, v < 2 ^ depth := by
+  intro v hv
+  simp only [subSamples, List.mem_map] at hv
+  obtain ⟨k, _, rfl⟩ := hv
+  exact Nat.mod_lt _ (Nat.pow_pos (by decide))
+
+/-- replicated key against replicated sample -/
+theorem replicate_key : ∀ depth ∈ [1, 2, 4], ∀ t < 2 ^ depth, ∀ v < 2 ^ depth,
+    (keyComponent 8 (replicateBits t depth) = replicateBits v depth ↔ keyComponent depth t = v) ∧
+    replicateBits v depth < 256 := by
+  decide
+
+/-- one sample of a grayscale image expanded to 8 bits means the same -/
+theorem expand_gray_meaning (depth : Nat) (hd : depth ∈ [1, 2, 4]) (t : Option Nat) (v : Nat) (hv : v < 2 ^ depth)
+    (ht : ∀ k, t = some k → k < 2 ^ depth) :
+    colourOf (.gray (t.map fun k => replicateBits k depth)) 8 [(UInt8.ofNat (replicateBits v depth)).toNat] =
+      colourOf (.gray t) depth [v] := by
+  have hs := expand_gray_sample depth hd v hv
+  cases t with
+  | none =>
+    have h256 := (replicate_key depth hd 0 (Nat.pow_pos (by decide)) v hv).2
+    simp only [colourOf, Option.map_none, List.getD_cons_zero, ofNat_toNat_lt _ h256, hs]
+    simp
+  | some k =>
+    have hk := ht k rfl
+    obtain ⟨hiff, h256⟩ := replicate_key depth hd k hk v hv
+    simp only [colourOf, Option.map_some, List.getD_cons_zero, ofNat_toNat_lt _ h256, hs]
+    congr 1
+    by_cases h : keyComponent depth k = v
+    · simp [h, hiff.mpr h]
+    · have : ¬ keyComponent 8 (replicateBits k depth) = replicateBits v depth := fun x => h (hiff.mp x)
+      simp [h, this]
+
+theorem flatMap_congr_mem {α β} (l : List α) (f g : α → List β) (h : ∀ a ∈ l, f a = g a) :
+    l.flatMap f = l.flatMap g := by
+  induction l with
+  | nil => rfl
+  | cons a l ih =>
+    simp only [List.flatMap_cons]
+    rw [h a List.mem_cons_self, ih (fun b hb => h b (List.mem_cons_of_mem _ hb))]
+
+theorem flatMap_map_comm {α β γ} (l : List α) (f : α → List β) (g : β → γ) :
+    l.flatMap (fun a => (f a).map g) = (l.flatMap f).map g := by
+  induction l with
+  | nil => rfl
+  | cons a l ih => simp [List.flatMap_cons, ih]
+
+theorem expand_line_gray (depth : Nat) (hd : depth ∈ [1, 2, 4]) (t : Option Nat)
+    (hkey : ∀ k, t = some k → k < 2 ^ depth) (line : Bytes) (px : Nat) :
+    ((line.flatMap (expandByte depth true)).take px).map
+        (fun b => colourOf (.gray (t.map fun k => replicateBits k depth)) 8 [b.toNat]) =
+      ((line.flatMap (subSamples depth)).take px).map (fun v => colourOf (.gray t) depth [v]) := by
+  have hexp : line.flatMap (expandByte depth true) =
+      (line.flatMap (subSamples depth)).map (fun v => UInt8.ofNat (replicateBits v depth)) := by
+    rw [← flatMap_map_comm]
+    apply flatMap_congr_mem
+    intro b _
+    exact (expandByte_spec depth hd b).2
+  rw [hexp, ← List.map_take, List.map_map]
+  apply List.map_congr_left
+  intro v hv
+  have hvlt : v < 2 ^ depth := by
+    obtain ⟨b, _, hb⟩ := List.mem_flatMap.mp (List.mem_of_mem_take hv)
+    exact subSamples_lt _ b v hb
+  exact expand_gray_meaning depth hd t v hvlt hkey
+
+theorem expand_line_indexed (depth : Nat) (hd : depth ∈ [1, 2, 4]) (p : List Rgba) (line : Bytes) (px : Nat) :
+    ((line.flatMap (expandByte depth false)).take px).map (fun b => colourOf (.indexed p) 8 [b.toNat]) =
+      ((line.flatMap (subSamples depth)).take px).map (fun v => colourOf (.indexed p) depth [v]) := by
+  have hexp : line.flatMap (expandByte depth false) =
+      (line.flatMap (subSamples depth)).map (fun v => UInt8.ofNat v) := by
+    rw [← flatMap_map_comm]
+    apply flatMap_congr_mem
+    intro b _
+    exact (expandByte_spec depth hd b).1
+  rw [hexp, ← List.map_take, List.map_map]
+  apply List.map_congr_left
+  intro v hv
+  have hvlt : v < 2 ^ depth := by
+    obtain ⟨b, _, hb⟩ := List.mem_flatMap.mp (List.mem_of_mem_take hv)
+    exact subSamples_lt _ b v hb
+  have h256 : v < 256 := by
+    simp only [List.mem_cons, List.mem_nil_iff, or_false] at hd
+    rcases hd with h1 | h1 | h1 <;> rw [h1] at hvlt <;> omega
+  simp only [Function.comp, colourOf, List.getD_cons_zero, ofNat_toNat_lt v h256]
+
+/-- **Expanding 1/2/4-bit samples to 8 bits is lossless for the whole image**: the 8-bit result shows,
+    pixel for pixel, what the packed rows showed (grayscale with or without key, and indexed). -/
+theorem expand_to_8_lossless (i j : Img) (lines : List (UInt8 × Bytes × Option Nat × Nat))
+    (hd : i.ihdr.depth ∈ [1, 2, 4]) (hl : i.scanLines false = some lines)
+    (hct : (∃ t, i.ihdr.ct = .gray t ∧ ∀ k, t = some k → k < 2 ^ i.ihdr.depth) ∨ (∃ p, i.ihdr.ct = .indexed p))
+    (h : expandedBitDepthTo8 i = some j) :
+    j.ihdr.width = i.ihdr.width ∧ j.ihdr.height = i.ihdr.height ∧ j.ihdr.interlaced = i.ihdr.interlaced ∧
+    pixelColours j = lowColours i.ihdr.ct i.ihdr.depth lines := by
+  obtain ⟨⟨w, hh, ct, depth, il⟩, data⟩ := i
+  simp only at hd hl hct
+  unfold expandedBitDepthTo8 at h
+  have hlt : ¬ (depth ≥ 8 ∨ depth = 0) := by
+    simp only [List.mem_cons, List.mem_nil_iff, or_false] at hd
+    omega
+  simp only [hlt, if_false, hl, Option.some.injEq] at h
+  subst h
+  refine ⟨rfl, rfl, rfl, ?_⟩
+  simp only [pixelColours, storagePixels, lowColours]
+  rcases hct with ⟨t, hc, hkey⟩ | ⟨p, hc⟩
+  · subst hc
+    cases t with
+    | none =>
+      have hb : Img.bppBytes ⟨⟨w, hh, .gray none, 8, il⟩, lines.flatMap fun l =>
+          (l.2.1.flatMap (expandByte depth true)).take l.2.2.2⟩ = 1 := rfl
+      simp only [hb, chunksExact_one, List.map_map, List.map_flatMap]
+      apply flatMap_congr_mem
+      intro l _
+      exact expand_line_gray depth hd none hkey l.2.1 l.2.2.2
+    | some k =>
+      have hb : Img.bppBytes ⟨⟨w, hh, .gray (some (replicateBits k depth)), 8, il⟩, lines.flatMap fun l =>
+          (l.2.1.flatMap (expandByte depth true)).take l.2.2.2⟩ = 1 := rfl
+      simp only [hb, chunksExact_one, List.map_map, List.map_flatMap]
+      apply flatMap_congr_mem
+      intro l _
+      exact expand_line_gray depth hd (some k) hkey l.2.1 l.2.2.2
+  · subst hc
+    have hb : Img.bppBytes ⟨⟨w, hh, .indexed p, 8, il⟩, lines.flatMap fun l =>
+        (l.2.1.flatMap (expandByte depth false)).take l.2.2.2⟩ = 1 := rfl
+    simp only [hb, chunksExact_one, List.map_map, List.map_flatMap]
+    apply flatMap_congr_mem
+    intro l _
+    exact expand_line_indexed depth hd p l.2.1 l.2.2.2
+
 /-- Non-vacuity: a concrete 16-bit keyed pixel -/
 example : colourOf (.gray (some 0x3434)) 16 [0x34 * 256 + 0x34] = ⟨0x3434, 0x3434, 0x3434, 0⟩ ∧
           colourOf (trns16to8 (.gray (some 0x3434)) exactKey) 8 [0x34] = ⟨0x3434, 0x3434, 0x3434, 0⟩ := by decide
@@ -700,5 +842,8 @@ example : indexedToChannels ⟨⟨2, 1, .indexed [⟨1, 2, 3, 255⟩, ⟨4, 5, 6
 
 example : reducedPalette ⟨⟨3, 1, .indexed [⟨9, 9, 9, 255⟩, ⟨1, 2, 3, 255⟩, ⟨1, 2, 3, 255⟩], 8, false⟩, [2, 1, 2]⟩ false =
     some ⟨⟨3, 1, .indexed [⟨1, 2, 3, 255⟩], 8, false⟩, [0, 0, 0]⟩ := by decide
+
+example : expandedBitDepthTo8 ⟨⟨3, 1, .gray (some 2), 2, false⟩, [0b10011100]⟩ =
+    some ⟨⟨3, 1, .gray (some 0xAA), 8, false⟩, [0xAA, 0x55, 0xFF]⟩ := by decide
 
 end OxiModel.C01
